@@ -112,3 +112,4 @@ m("c02-initial-state-assigned-before-check", "C02", DET, "        # check before
 m("c09-revert-atomic-parameters", "C09", BASE, "        param_value = [0]*len(self._paramList)\n\n        for key, val in param_out.items():",
   "        self._parameters = param_out\n        param_value = self._paramValue = [0]*len(self._paramList)\n\n        for key, val in param_out.items():")
 m("c11-revert-finally", "C11", BASE, "        finally:\n            # also when a later name of the list is rejected", "        except Exception:\n            raise\n        else:\n            # also when a later name of the list is rejected")
+m("c18-revert-keep-initial-guess", "C18", BL, "        if np.isfinite(cost0) and not res['fun'] <= cost0:", "        if False:")
